@@ -1270,8 +1270,10 @@ void rtosc::path_search(const rtosc::Ports& root,
             types[pos]    = 'b';
             if(p.metadata && *p.metadata) {
                 args[pos].b.data = (unsigned char*) p.metadata;
+                // length() also counts the ':' which Port::meta() skips,
+                // but nothing has been skipped here
                 auto tmp = rtosc::Port::MetaContainer(p.metadata);
-                args[pos++].b.len  = tmp.length();
+                args[pos++].b.len  = tmp.length() - 1;
             } else {
                 args[pos].b.data = (unsigned char*) NULL;
                 args[pos++].b.len  = 0;
